@@ -211,7 +211,7 @@ impl Property for C15 {
         "C15"
     }
     fn rule(&self) -> &'static str {
-        "(A) for each of the five production contracts and a harness contract built with the repo's derive macros: ALL sequences over {upgrade(empty-Wasm hash, keeps native dispatch of the current source), migrate, transfer_ownership} x {owner, former owner, stranger, nobody} up to length 3 (quick) / 4 (thorough), with and without a preceding ownership transfer, enumerated as fixed cases; proptest adds random sequences up to length 8. Oracle: migration-window model (upgrade and transfer need the current owner, upgrade opens the window; migrate needs the *current* owner (also when ownership changed while the window was open) and an open window, closes it, emits upgraded(version)); everything else fails with the ledger snapshot identical; the window flag is also read directly as a recorded cross-check (never a verdict). (B) Upgrader: ALL combinations of target (configurable harness target; native dummy -> committed dummy.wasm; the five production contracts) x requested version (same / next / wrong / current+suffix / strict prefix of what the new code reports) x authorisation coverage (both steps, one step only, none, both by a stranger, both by the former owner) x migration data (well-typed, ill-typed, too many arguments, failing migration, new code reporting another / the old version), enumerated as fixed cases, with and without a preceding ownership transfer. Oracle: success iff versions differ beforehand, the current owner authorised both steps, migrate accepts the data, and the version afterwards equals the request (then version/data are the new ones); otherwise failure with the target's ledger snapshot identical (code, version, data, flag). non-trivial = any case but a lone owner upgrade; distinct by Debug hash. A share of the random cases is an entry-point sweep (the exported functions of all shipped contracts are read from the sources of the tree under test; entry points absent from the pinned inventory get 300 deterministic cases each and half of the random sweep cases): one entry point is called on a fully deployed system (gateway, gas service, operators, token service with a deployed token owned by the service, stand-alone token, upgrader, example app; some contracts optionally upgraded-but-not-migrated) with arguments from pools of principals / contracts / tokens / names / ids / boundary amounts, every require_auth satisfied by the host's mock and recorded; cases where the mock let a contract sign are discarded; oracle: a change of a contract's migration state (code replaced, or migration run) needs that contract's owner among the recorded signers (or to be the called contract) - in particular for a token whose owner is the token service no account's signature may suffice; non-trivial = the call succeeded"
+        "(A) for each of the five production contracts and a harness contract built with the repo's derive macros: ALL sequences over {upgrade(empty-Wasm hash, keeps native dispatch of the current source), migrate, transfer_ownership} x {owner, former owner, stranger, nobody} up to length 3 (quick) / 4 (thorough), with and without a preceding ownership transfer, enumerated as fixed cases; proptest adds random sequences up to length 8. Oracle: migration-window model (upgrade and transfer need the current owner, upgrade opens the window; migrate needs the *current* owner (also when ownership changed while the window was open) and an open window, closes it, emits upgraded(version)); everything else fails with the ledger snapshot identical; the window flag is also read directly as a recorded cross-check (never a verdict). (B) Upgrader: ALL combinations of target (configurable harness target; native dummy -> committed dummy.wasm; the five production contracts) x requested version (same / next / wrong / current+suffix / strict prefix of what the new code reports) x authorisation coverage (both steps, one step only, none, both by a stranger, both by the former owner) x migration data (well-typed, ill-typed, too many arguments, failing migration, new code reporting another / the old version), enumerated as fixed cases, with and without a preceding ownership transfer. Oracle: success iff versions differ beforehand, the current owner authorised both steps, migrate accepts the data, and the version afterwards equals the request (then version/data are the new ones); otherwise failure with the target's ledger snapshot identical (code, version, data, flag). non-trivial = any case but a lone owner upgrade; distinct by Debug hash. A share of the random cases is an entry-point sweep (the exported functions of all shipped contracts are read from the sources of the tree under test; entry points absent from the pinned inventory get 300 deterministic cases each and half of the random sweep cases): one entry point is called on a fully deployed system (gateway, gas service, operators, token service with a deployed token owned by the service, stand-alone token, upgrader, example app; some contracts optionally upgraded-but-not-migrated) with arguments from pools of principals / contracts / tokens / names / ids / boundary amounts, every require_auth satisfied by the host's mock and recorded; cases where the mock let a contract sign are discarded; oracle: a change of a contract's migration state (code replaced, or migration run) needs that contract's owner among the recorded signers (or to be the called contract) - in particular for a token whose owner is the token service no account's signature may suffice; non-trivial = the call succeeded Since rounds 12-13 the probe target's new code may migrate into a state in which `version` fails or returns a number, and the empty string may be requested as version: the Upgrader must refuse both."
     }
     fn fixed_is_exhaustive(&self) -> Option<&'static str> {
         Some("all {upgrade,migrate,transfer}x{owner,former,stranger,nobody} sequences to length 3 (quick) / 4 (thorough) on 6 targets x {with,without} ownership transfer; and the full Upgrader matrix")
